@@ -1,0 +1,107 @@
+//go:build verif
+
+// Contracts for property C03 (W3C trace-context). Comment-only file: with the build tag off it
+// is not part of the build; with it on it adds no code. Checked by /verif/bin/govc.
+
+package trace
+
+//@ props C03
+
+// ---- W3C tracestate grammar (https://www.w3.org/TR/trace-context-1/#tracestate-header)
+//@ spec lcalpha(c byte) bool = 'a' <= c && c <= 'z'
+//@ spec digit(c byte) bool = '0' <= c && c <= '9'
+//@ spec keyRest(c byte) bool = lcalpha(c) || digit(c) || c == '_' || c == '-' || c == '*' || c == '/'
+//@ spec allRest(s string, lo int, hi int) bool = forall i in lo .. hi : keyRest(s[i])
+//@ spec chr(c byte) bool = 0x20 <= c && c <= 0x7e && c != ',' && c != '='
+//@ spec nblk(c byte) bool = 0x21 <= c && c <= 0x7e && c != ',' && c != '='
+//@ spec w3cValue(s string) bool = 1 <= len(s) && len(s) <= 256 && (forall i in 0 .. len(s)-1 : chr(s[i])) && nblk(s[len(s)-1])
+
+//@ func checkValueChar(v byte) (ok bool)
+//@   ensures ok == chr(v)
+//@ func checkValueLast(v byte) (ok bool)
+//@   ensures ok == nblk(v)
+//@ func isAlphaNum(c byte) (ok bool)
+//@   ensures ok == (lcalpha(c) || digit(c))
+//@ func checkValue(val string) (ok bool)
+//@   ensures ok == w3cValue(val)
+//@   loop#1 invariant 0 <= i && i <= n-1
+//@   loop#1 invariant forall k in 0 .. i : chr(val[k])
+//@   loop#1 decreases n-1-i
+//@ func checkKeyRemain(key string) (ok bool)
+//@   ensures ok == allRest(key, 0, len(key))
+//@   loop#1 invariant 0 <= i && i <= len(key)
+//@   loop#1 invariant forall k in 0 .. i : keyRest(key[k])
+//@   loop#1 decreases len(key) - i
+
+// simple-key = lcalpha 0*255(keyRest); system-id = lcalpha 0*13(keyRest); tenant-id = (lcalpha / DIGIT) 0*240(keyRest)
+//@ spec keyPart(s string, n int) bool = 1 <= len(s) && len(s) <= n+1 && lcalpha(s[0]) && allRest(s, 1, len(s))
+//@ spec tenantPart(s string, n int) bool = 1 <= len(s) && len(s) <= n+1 && (lcalpha(s[0]) || digit(s[0])) && allRest(s, 1, len(s))
+//@ spec hasAt(s string) bool = exists i in 0 .. len(s) : s[i] == '@'
+//@ spec firstAt(s string, p int) bool = 0 <= p && p < len(s) && s[p] == '@' && (forall q in 0 .. p : s[q] != '@')
+//@ spec w3cKey(s string) bool = (!hasAt(s) && keyPart(s, 255)) || (exists p in 0 .. len(s) : firstAt(s, p) && tenantPart(s[:p], 240) && keyPart(s[p+1:], 13))
+
+//@ func checkKeyPart(key string, n int) (ok bool)
+//@   requires n >= 0
+//@   ensures ok == keyPart(key, n)
+//@ func checkKeyTenant(key string, n int) (ok bool)
+//@   requires n >= 0
+//@   ensures ok == tenantPart(key, n)
+//@ func checkKey(key string) (ok bool)
+//@   ensures ok == w3cKey(key)
+//@ func newMember(key string, value string) (m member, err error)
+//@   ensures (err == nil) == (w3cKey(key) && w3cValue(value))
+//@   ensures err == nil ==> m.Key == key && m.Value == value
+
+//@ spec validMember(m member) bool = w3cKey(m.Key) && w3cValue(m.Value)
+//@ spec ows(c byte) bool = c == ' ' || c == '\t'
+//@ func parseMember(m string) (r member, err error)
+//@   ensures err == nil ==> validMember(r)
+//@   ensures err == nil ==> exists p in 0 .. len(m) : m[p] == '=' && (forall q in 0 .. p : m[q] != '=')
+
+// ---- TraceState: representation invariant (all members valid, keys pairwise distinct, at most 32)
+//@ spec hasKey(l []member, k string) bool = exists i in 0 .. len(l) : l[i].Key == k
+//@ spec distinctKeys(l []member) bool = forall i in 0 .. len(l) : forall j in 0 .. i : l[i].Key != l[j].Key
+//@ spec validTS(l []member) bool = len(l) <= 32 && (forall i in 0 .. len(l) : validMember(l[i])) && distinctKeys(l)
+//@ typeinv TraceState = validTS(self.list)
+
+//@ func ParseTraceState(ts string) (r TraceState, err error)
+//@   ensures ts == "" ==> err == nil && len(r.list) == 0
+//@   ensures err != nil ==> len(r.list) == 0
+//@   ensures err == nil ==> validTS(r.list)
+//@   loop#1 invariant len(members) <= 32 && (forall i in 0 .. len(members) : validMember(members[i])) && distinctKeys(members)
+//@   loop#1 invariant forall k in 0 .. len(members) : has(found, members[k].Key)
+//@   loop#1 invariant found != nil
+//@   loop#1 invariant fresh(members) && framed()
+
+//@ func (ts TraceState) Len() (n int)
+//@   ensures n == len(ts.list)
+//@ func (ts TraceState) Get(key string) (v string)
+//@   ensures !hasKey(ts.list, key) ==> v == ""
+//@   ensures hasKey(ts.list, key) ==> exists i in 0 .. len(ts.list) : ts.list[i].Key == key && v == ts.list[i].Value
+//@   loop#1 invariant forall q in 0 .. $k : ts.list[q].Key != key
+
+// Insert: newest (or updated) member first, the rest keep their order, only the right-most is dropped on overflow,
+// the receiver's list is untouched, invalid input returns the original TraceState.
+//@ func (ts TraceState) Insert(key string, value string) (r TraceState, err error)
+//@   ensures (err == nil) == (w3cKey(key) && w3cValue(value))
+//@   ensures err != nil ==> r.list === ts.list
+//@   ensures err == nil ==> len(r.list) >= 1 && r.list[0].Key == key && r.list[0].Value == value
+//@   ensures err == nil && hasKey(ts.list, key) ==> len(r.list) == len(ts.list)
+//@   ensures err == nil && !hasKey(ts.list, key) ==> len(r.list) == min(32, len(ts.list)+1)
+//@   ensures err == nil ==> exists p in 0 .. len(ts.list)+1 : (p == len(ts.list) || ts.list[p].Key == key) && (forall j in 0 .. p : ts.list[j].Key != key) && (forall j in 0 .. p : j+1 < len(r.list) ==> r.list[j+1] == ts.list[j]) && (forall j in p+1 .. len(ts.list) : r.list[j] == ts.list[j])
+//@   ensures err == nil ==> fresh(r.list)
+//@   ensures unchanged(ts.list)
+//@   loop#1 invariant (found == n && (forall q in 0 .. $k : ts.list[q].Key != key)) || (0 <= found && found < $k && ts.list[found].Key == key)
+
+// Delete: a copy without the member keyed key (order kept); the receiver's list is untouched.
+//@ func (ts TraceState) Delete(key string) (r TraceState)
+//@   ensures !hasKey(ts.list, key) ==> r.list == ts.list
+//@   ensures hasKey(ts.list, key) ==> exists p in 0 .. len(ts.list) : ts.list[p].Key == key && len(r.list) == len(ts.list)-1 && (forall j in 0 .. p : r.list[j] == ts.list[j]) && (forall j in p .. len(r.list) : r.list[j] == ts.list[j+1])
+//@   ensures fresh(r.list)
+//@   ensures unchanged(ts.list)
+//@   loop#1 invariant forall q in 0 .. $k : ts.list[q].Key != key
+
+//@ func (ts TraceState) String() (s string)
+//@   ensures len(ts.list) == 0 ==> s == ""
+//@   loop#1 invariant 0 <= n && n <= 2*len(ts.list) + $k*512
+//@   loop#2 invariant 1 <= i && i <= len(ts.list)
